@@ -41,7 +41,7 @@ fn run_generator(ctx: &ShardCtx, only: &str, wrap: bool) -> Result<Value, String
         .args(["+nightly", "rustdoc", "--lib", "--offline", "--target-dir"])
         .arg(&tdir)
         .args(["--", "-Z", "unstable-options", "--output-format", "json"])
-        .current_dir("/repo")
+        .current_dir(std::env::var("JV_REPO").unwrap_or_else(|_| "/repo".to_string()))
         .env("CARGO_NET_OFFLINE", "true")
         .output();
     let json = tdir.join("doc/jammdb.json");
